@@ -3,7 +3,7 @@
    the per-datagram goroutines of one Serve call, in any order (the steps before
    the lock are goroutine-local, so the lock step is the linearisation point). *)
 From Radius Require Import Base.Bytes Base.Res Model.Attrs Model.Packet Model.Dispatch
-  Spec.C03 Proofs.Dispatch Proofs.DispatchShape.
+  Spec.C03 Proofs.Dispatch Proofs.DispatchShape Proofs.DispatchLabels.
 Open Scope nat_scope.
 
 Section S.
@@ -36,6 +36,21 @@ Theorem C06_exactly_once : forall s e,
   length (gs (fst (dstep H skip_verify secret_of s e))) =
   length (gs s) + (match e with DArrive _ _ => 1 | _ => 0 end).
 Proof. exact (exactly_once H skip_verify secret_of). Qed.
+(* for EVERY state of the model (no invariant assumed) and every event: a handler is started only by an arriving
+   datagram that [decide] accepts and whose key is absent, and that step inserts exactly this key; the only other
+   write to the in-flight table is the deferred delete of a goroutine whose handler has returned, of exactly its own
+   key; goroutines are never forgotten *)
+Theorem C06_label_table : forall s e,
+  let s' := fst (dstep H skip_verify secret_of s e) in
+  let o := snd (dstep H skip_verify secret_of s e) in
+  (forall r, o = ODispatched r ->
+     exists from d, e = DArrive from d /\ decide H skip_verify secret_of from d = Some r /\
+       mem (from, ident (r_packet r)) (inflight s) = false /\
+       inflight s' = (from, ident (r_packet r)) :: inflight s) /\
+  (inflight s' <> inflight s -> (forall r, o <> ODispatched r) ->
+     exists g k, e = DClean g /\ nth_error (gs s) g = Some (GClean k) /\ inflight s' = delete k (inflight s)) /\
+  length (gs s) <= length (gs s').
+Proof. exact (dispatch_label_table_holds H skip_verify secret_of). Qed.
 End S.
 
 Theorem C06_reply_goes_back_authentic : forall H, (forall x, length (H x) = 16) ->
@@ -81,3 +96,4 @@ Print Assumptions C06_reply_goes_back_authentic.
 Print Assumptions C06_oracle.
 Print Assumptions C06_code_order.
 Print Assumptions C06_code_paths_complete.
+Print Assumptions C06_label_table.
